@@ -42,6 +42,7 @@ def main():
         if not a.keep:
             subprocess.run(["git", "-C", "/repo", "worktree", "remove", "--force", wt], capture_output=True)
             shutil.rmtree(wt, ignore_errors=True)
+            shutil.rmtree(f"/tmp/ckt_scratch__{sid}/coq", ignore_errors=True)
     json.dump(out, open(os.path.join(d, "last_run.json"), "w"), indent=1)
 
 if __name__ == "__main__":
